@@ -15,7 +15,7 @@ from ..core import Machinery
 from ..rigs import wait_rig as W
 
 INVARIANTS = ['TypeOK', 'InvPrompt', 'InvNotEarly', 'InvTruthful', 'InvDueOrder']
-DEVS       = ['DevTaskDefaultNone', 'DevNoFinalExit', 'DevPilotNoneReturn']
+DEVS       = ['DevTaskDefaultNone', 'DevNoFinalExit', 'DevPilotNoneReturn', 'DevStaleApplied']
 
 # apis for which "in or past a requested state" is what Prompt counts: wait_tasks
 # documents and implements it; Task.wait, Pilot.wait and wait_pilots compare for
@@ -46,17 +46,22 @@ def case_from_behaviour(path):
     if not steps:
         return None, None
     s0 = steps[0][2]
-    traj, closing = [], []
+    def stale_of(s):
+        return [v if v != t else -1 for v, t in zip(s['seen'], s['st'])]
+    traj, closing, stale = [], [], [stale_of(s0)]
     for act, _, s in steps[1:]:
         if act == 'Poll':
             traj.append(list(s['st']))
             closing.append(bool(s['closing']))
+            stale.append(stale_of(s))
     case = W.make_case(s0['api'], len(s0['st']), s0['kind'], sorted(s0['awaited']), s0['rform'],
                        list(s0['R']), s0['timeout'], list(s0['st']), traj, s0['closing'], closing)
     last  = steps[-1][2]
     model = None
     if last['pc'] == 'ret':
         model = {'tick': last['rtick'], 'shape': last['rshape'], 'val': list(last['rval'])}
+    if any(v >= 0 for vec in stale for v in vec):
+        case['stale'] = stale          # the environment of a notification case
     return case, model
 
 
@@ -107,10 +112,16 @@ D7P = 'Pilot.wait: pilot final in a state that was not awaited'
 D7N = 'Pilot.wait: pilot already in an awaited final state at the call'
 
 
+NAMES = {'task': 'Task.wait', 'pilot': 'Pilot.wait', 'tmgr': 'TaskManager.wait_tasks',
+         'pmgr': 'PilotManager.wait_pilots'}
+
+
 def classify(trace, clause):
     '''call-site class of a failing trace (for known-findings matching)'''
     api, nn = trace['api'], trace['nn']
     want = trace['R'] or [nn, nn + 1, nn + 2]
+    if any(e.get('seen', e.get('st')) != e.get('st') for e in trace['events']):
+        return '%s: client-side state behind the furthest state notified' % NAMES[api]
     if api == 'task' and trace['rform'] == 'none':
         return D6
     if api in ('task', 'pilot'):
@@ -121,9 +132,7 @@ def classify(trace, clause):
         if api == 'pilot' and clause.startswith('C15.Truthful') and sts and sts[0] >= nn \
                 and sts[0] in want:
             return D7N
-    names = {'task': 'Task.wait', 'pilot': 'Pilot.wait', 'tmgr': 'TaskManager.wait_tasks',
-             'pmgr': 'PilotManager.wait_pilots'}
-    return '%s (uids: %s, state: %s)' % (names[api], trace['kind'], trace['rform'])
+    return '%s (uids: %s, state: %s)' % (NAMES[api], trace['kind'], trace['rform'])
 
 
 def signature(trace):
@@ -188,16 +197,20 @@ def run(chk, tier, seed):
         expect = [(['DevNoFinalExit'], ['task', 'pilot'], 2, 'InvPrompt'),
                   (['DevNoFinalExit'], ['task', 'pilot'], 0, None),   # default wait needs no exit
                   (['DevTaskDefaultNone', 'DevNoFinalExit'], ['task'], 0, 'InvPrompt'),
-                  (['DevPilotNoneReturn'], ['pilot'], 1, 'InvTruthful')]
+                  (['DevPilotNoneReturn'], ['pilot'], 1, 'InvTruthful'),
+                  (['DevStaleApplied'], ['pilot', 'pmgr'], 1, True),
+                  (['DevStaleApplied'], ['task', 'tmgr'], 1, True)]
         for devs, apis, maxreq, inv in expect:
             res = tlc.run('Wait', 'Wait', 'MC.cfg', workers=16, timeout=600,
-                          extra_files=mc_cfg(apis, nn=2, ne=1, devs=devs, maxreq=maxreq))
+                          extra_files=mc_cfg(apis, nn=2, ne=1 if inv is not True else 2, devs=devs,
+                                             maxreq=maxreq))
             chk.add_tlc(res, 'deviation:%s/maxreq=%d' % ('+'.join(devs), maxreq))
-            if res.violated != inv:
+            if (inv is True and res.ok) or (inv is not True and res.violated != inv):
                 raise Machinery('deviation %s (maxreq %d): expected %s, TLC says %s'
                                 % (devs, maxreq, inv, res.violated))
             if inv:
-                chk.notes.append('deviation %s breaks %s in the design model' % ('+'.join(devs), inv))
+                chk.notes.append('deviation %s breaks %s in the design model'
+                                 % ('+'.join(devs), res.violated))
 
     # ---- 3. TLC behaviours of the model as coded -> cases for the real methods ---
     cases, kinds, seen, models = [], [], set(), {}
@@ -212,45 +225,61 @@ def run(chk, tier, seed):
         if model is not None:
             models[len(cases) - 1] = model
 
-    nsim = 250 if quick else 2500
-    for apis, mayclose, share in ((['task', 'pilot'], False, 1.0), (['tmgr', 'pmgr'], False, 1.0),
-                                  (['task', 'pilot', 'tmgr', 'pmgr'], True, 0.4)):
+    # direct: the model of the intended design (== the code, if no known deviation
+    # is left in it); notify: the environment of the model in which stale
+    # notifications stick supplies which stale notification arrives when
+    nsim = 150 if quick else 2500
+    for apis, mayclose, devs, share in (
+            (['task', 'pilot'], False, [], 1.0), (['tmgr', 'pmgr'], False, [], 1.0),
+            (['task', 'pilot', 'tmgr', 'pmgr'], True, [], 0.6),
+            (['task', 'pilot'], False, ['DevStaleApplied'], 1.0),
+            (['tmgr', 'pmgr'], False, ['DevStaleApplied'], 1.0)):
         dump = tlc.scratch('rpsim_')
         try:
             res = tlc.run('Wait', 'Wait', 'MC.cfg', workers=1, timeout=900,
                           simulate='num=%d' % int(nsim * share), depth=12,
                           seed=rng.randrange(10 ** 6), dump_dir=dump,
-                          extra_files=mc_cfg(apis, nn=3, ne=2, devs=DEVS, mayclose=mayclose,
+                          extra_files=mc_cfg(apis, nn=3, ne=2, devs=devs, mayclose=mayclose,
                                              timeouts=(0, 1, 2, 4), invariants=['TypeOK']))
-            chk.add_tlc(res, 'simulate:' + '+'.join(apis))
+            chk.add_tlc(res, 'simulate:%s%s' % ('+'.join(apis), '/stale' if devs else ''))
             for f in tlc.sim_files(dump):
                 case, model = case_from_behaviour(f)
                 if case is None:
                     continue
-                emb  = W.embedding(case['api'], 3, random.Random(rng.randrange(10 ** 9)))
-                real = W.embed(case, emb)
-                if model:
-                    model = dict(model, val=[emb(v) for v in model['val']])
-                add(real, 'tlc-behaviour', model)
+                emb   = W.embedding(case['api'], 3, random.Random(rng.randrange(10 ** 9)))
+                stale = case.pop('stale', None)
+                real  = W.embed(case, emb)
+                if devs:
+                    stale = [[emb(v) for v in vec] for vec in stale] if stale else None
+                    add(W.to_notify(real, policy='none', stale=stale), 'tlc-behaviour/notify')
+                else:
+                    if model:
+                        model = dict(model, val=[emb(v) for v in model['val']])
+                    add(real, 'tlc-behaviour', model)
         finally:
             shutil.rmtree(dump, ignore_errors=True)
     n_tlc = len(cases)
 
-    # ---- 4. small scope, exhaustive (thorough) or a seeded sample of it (quick) -
-    if quick:
-        pool = list(small_scope(nn_model=2, n=2))
-        rng.shuffle(pool)
-        pool = pool[:1500]
-    else:
-        pool = list(small_scope(nn_model=3, n=3))          # all 88200
+    # ---- 4. small scope: exhaustive (thorough) or a seeded sample of it (quick); --
+    #         a sample of it again through the notification paths
     nm = 2 if quick else 3
+    pool = list(small_scope(nn_model=nm, n=nm))           # thorough: all 88200
+    if quick:
+        rng.shuffle(pool)
+        pool = pool[:900]
     for c in pool:
         add(W.embed(c, W.embedding(c['api'], nm, random.Random(rng.randrange(10 ** 9)))), 'small-scope')
+    for i, c in enumerate(rng.sample(pool, 700 if quick else 25000)):
+        erng = random.Random(rng.randrange(10 ** 9))
+        real = W.embed(c, W.embedding(c['api'], nm, erng))
+        add(W.to_notify(real, erng, policy='echo' if i % 2 else 'random'), 'small-scope/notify')
     n_small = len(cases) - n_tlc
 
     # ---- 5. seeded random cases over the full state chains -----------------------
-    for _ in range(1200 if quick else 8000):
+    for _ in range(700 if quick else 8000):
         add(W.random_case(rng), 'random')
+    for _ in range(600 if quick else 8000):
+        add(W.to_notify(W.random_case(rng), rng, policy='random'), 'random/notify')
     n_rand = len(cases) - n_tlc - n_small
 
     # ---- 6. run the real methods, validate every trace ----------------------------
@@ -263,10 +292,16 @@ def run(chk, tier, seed):
            (last['shape'], last['val']) == ((m['shape'], m['val']) if m['shape'] != 'none' else ('none', [])):
             same += 1
     chk.notes.append('%d of %d TLC behaviours which end with a return: the real method returned '
-                     'at the same tick with the same value as the model with all known '
-                     'deviations switched on' % (same, len(models)))
-    chk.notes.append('cases: %d from TLC behaviours, %d small-scope, %d random'
-                     % (n_tlc, n_small, n_rand))
+                     'at the same tick with the same value as the model of the intended '
+                     'design' % (same, len(models)))
+    n_not = sum(1 for c in cases if c.get('mode') == 'notify')
+    n_div = sum(1 for t in traces if any(e.get('seen', e.get('st')) != e.get('st') for e in t['events']))
+    n_exc = sum(t['notify_raised'] for t in traces)
+    chk.notes.append('cases: %d from TLC behaviours, %d small-scope, %d random; %d of them apply '
+                     'the trajectory through the real notification paths (duplicates, stale and '
+                     'post-final notifications included); client-side state differed from the '
+                     'furthest state notified in %d traces; the notification path raised %d times'
+                     % (n_tlc, n_small, n_rand, n_not, n_div, n_exc))
     for i in (0, n_tlc, n_tlc + n_small):
         if i < len(traces):
             chk.sample({'kind': kinds[i], 'call': {k: v for k, v in traces[i].items() if k != 'events'},
@@ -275,7 +310,11 @@ def run(chk, tier, seed):
         'the wait loops observe the entities only between two sleeps: the virtual clock moves '
         'the entities inside the fake time.sleep (one tick = the 0.1 s poll interval)',
         'entity trajectories are legal in the state model (forward in the numeric order, a '
-        'final state is never left); Task._state / Pilot._state are set directly',
+        'final state is never left); they are written into Task._state / Pilot._state, or '
+        '(notify cases) delivered as state notifications to the real _state_sub_cb of the manager, '
+        'one notification per message, mixed with duplicates, stale and post-final non-final '
+        'notifications; there the actual state is the furthest state ever notified, the first final '
+        'one being sticky (no contradicting final notifications are generated)',
         'a call is due when every awaited entity has been in a requested state or final at a '
         'poll instant (in or past the earliest requested state for wait_tasks), or the timeout '
         'has elapsed; exact-state matching of Task.wait, Pilot.wait and wait_pilots is accepted',
